@@ -225,8 +225,10 @@ class Node:
         # Peer instances as a value. It als contains one app entry with
         # string value "_default", which is a list of default peers for the
         # realm (slight deviation of the standard).
+        # Realm names are diameter identities, i.e. case-insensitive: the
+        # keys are kept in lower case.
         self._peer_routes: dict[str, dict[Application | str, list[Peer]]] = {
-            realm_name: {"_default": []}
+            realm_name.lower(): {"_default": []}
         }
         self._app_waiting_answer: dict[str, Application] = {}
         # An internal list of requests and the connections waiting for a
@@ -1040,7 +1042,7 @@ class Node:
             return
 
         # a name that is not even valid text cannot be a realm served here
-        realm_name = message.destination_realm.decode(errors="replace")
+        realm_name = message.destination_realm.decode(errors="replace").lower()
         if realm_name not in self._peer_routes:
             self.logger.warning(
                 f"{conn} realm {realm_name} not served by this node "
@@ -1282,6 +1284,7 @@ class Node:
         for peer in peers:
             peer_realms = [peer.realm_name] + (realms or [])
             for realm_name in peer_realms:
+                realm_name = realm_name.lower()
                 self._peer_routes.setdefault(realm_name, {})
                 peer_list = self._peer_routes[realm_name].setdefault(app, [])
                 peer_list.append(peer)
@@ -1352,8 +1355,8 @@ class Node:
             persistent=is_persistent)
         self.peers[node_name] = peer
         if is_default:
-            self._peer_routes.setdefault(peer.realm_name, {})
-            peers = self._peer_routes[peer.realm_name].setdefault("_default", [])
+            self._peer_routes.setdefault(peer.realm_name.lower(), {})
+            peers = self._peer_routes[peer.realm_name.lower()].setdefault("_default", [])
             peers.append(peer)
 
         return peer
@@ -1769,7 +1772,7 @@ class Node:
                 or accepting requests at the time
 
         """
-        realm_name = self.realm_name
+        realm_name = self.realm_name.lower()
         dest_realm = getattr(message, "destination_realm", None)
         if dest_realm is None and not hasattr(message, "avp_def"):
             # a message without attribute definitions (a command without
@@ -1781,7 +1784,7 @@ class Node:
                     dest_realm = avp.payload
                     break
         if dest_realm is not None:
-            realm_name = dest_realm.decode()
+            realm_name = dest_realm.decode().lower()
 
         peer_list = None
         if realm_name in self._peer_routes:
